@@ -25,7 +25,7 @@ OPT_THEOREMS = ["Nmfu.C05_simplify_else_preserves", "Nmfu.C05_simplify_else_pres
 # … and of `_optimize_remove_inaccessible`: removing states no kept state refers to, and renumbering, leaves every dispatch
 # tree the same up to the renumbering (hypothesis `closedUnder`, evaluated per snapshot on the set the mirror keeps)
 REMOVE_THEOREMS = ["Nmfu.C05_remove_states_preserves", "Nmfu.dispatch_sim", "Nmfu.armTree_sim", "Nmfu.Acts.tree_sim",
-                   "Nmfu.removeStates_renOK", "Nmfu.closedUnder_sound", "Nmfu.dispatch_mono", "Nmfu.C05_remove_states_call", "Nmfu.armTree_sim_finishFirst"]
+                   "Nmfu.removeStates_renOK", "Nmfu.closedUnder_sound", "Nmfu.dispatch_mono", "Nmfu.C05_remove_states_call", "Nmfu.armTree_sim_finishFirst", "Nmfu.C05_O1_round_preserves"]
 PASS_CFGS = ("O3", "O0+simplify", "O0+remove", "O1")
 CHAIN_CFGS = ("O0+simplify", "O0+remove", "O1")   # settings under which no unmirrored pass modifies the table
 
